@@ -81,8 +81,12 @@ def run_impl(c):
 def generate(rng, tier, mult):
     n_pipes = (40 if tier == "quick" else 1000) * mult
     cases = []
-    for _ in range(n_pipes):
-        pd = pipegen.gen_pipeline(rng)
+    n_diamonds = (8 if tier == "quick" else 100) * mult
+    for k in range(n_pipes + n_diamonds):
+        if k < n_diamonds:      # a node whose value is None shared by >= 2 consumers
+            pd = pipegen.gen_none_diamond(rng)
+        else:
+            pd = pipegen.gen_pipeline(rng, none_prob=rng.choice([0.0, 0.0, 0.2, 0.4]))
         if rng.random() < 0.5:
             q = list(pd["funcs"])
             rng.shuffle(q)
